@@ -286,7 +286,7 @@ def function_cases(ctx, dist):
     for p in hv:
         for h in hv:
             add("FMemberHeaders %s %s %s" % (c_pv(p), c_pv(h), c_res(call(lambda: HeaderMember(p, h).headers()), c_pv)), ("FMemberHeaders", p, h))
-            for u in ([None, {}, {"zip": "DEF"}, 1] if ctx.quick else hv):
+            for u in ([None, {"zip": "DEF"}] if ctx.quick else hv):
                 add("FRecipientHeaders true %s %s %s %s" % (c_pv(p), c_pv(u), c_pv(h), c_res(
                     call(lambda: Recipient(FlattenedJSONEncryption(p, None, u), h).headers()), c_pv)), ("FRecipientHeaders", True, p, u, h))
             add("FRecipientHeaders false %s PNone %s %s" % (c_pv(p), c_pv(h), c_res(
@@ -316,7 +316,7 @@ def function_cases(ctx, dist):
         add("FJsonB64 %s %s %s" % (c_pv(text), jj, c_res(call(util.json_b64decode, text), c_pv)), ("FJsonB64", text))
     # ---- JWK validation of embedded keys
     for epk in [e for e in S.epk_variants() if renderable(e)]:
-        for ec in (True, False):
+        for ec in ((rng.random() < 0.5,) if ctx.quick else (True, False)):
             cls = ECKey if ec else OKPKey
             add("FValidateDictKey %s %s %s" % (c_bool(ec), c_pv(epk), c_res(call(cls.validate_dict_key, epk), c_unit)), ("FValidateDictKey", ec, epk))
     # ---- key selection
